@@ -43,3 +43,8 @@ check("C06",
       "Exploration: every generated history of per-attempt failures x idempotence x initial consistency x built-in policy is fed to one retry session as the execution loop does; for non-idempotent requests a retry may follow only a failure that proves non-application, default never retries at serial consistency, fallthrough never retries, same-target retries are bounded per session.",
       "Trusted: the property's list of failures that prove non-application. The 'driver sends exactly the attempts decided' half is the mock-cluster sub-check (when present in evidence sub_checks).",
       "DESIGN.md 2/C06")
+check("C04",
+      "property-based testing: generated rings/strategies, differential against reference replica walkers written from the property; metamorphic relations between views of one replica set",
+      "Exploration: for every generated topology x strategy x token (every ring token, neighbours, extremes) the driver's replica set (precomputed and lazy locators) is compared with reference SimpleStrategy/NetworkTopologyStrategy walkers; len, iteration, nth/size_hint, random choice, DC restriction, ring-ordered view and get_token_endpoints must describe the same nodes (and shards).",
+      "Trusted: reference walkers in vkit::topo. Rings up to 12 nodes; hook-built pool-less nodes. With duplicate tokens (not a server state) only NTS answers and internal consistency are asserted.",
+      "DESIGN.md 2/C04")
